@@ -274,3 +274,45 @@ def r4b_unordered_pick(ctx):
             r.violate(key, "first match in hash order is returned by %s at %s (fields tested: %s)" % (f.id, crate.span_str(s.span), sorted(s.fields)))
     r.counts["sites"] = n
     return r
+
+
+def r4d_sort_keys_are_projections(ctx):
+    r = Result("R4d", "the comparator / key closure of every sort compares projections of the elements themselves: the only calls in "
+                      "it are cmp / partial_cmp / then / then_with / reverse and reference adaptors. A key that is computed from "
+                      "the element (to_lowercase, len, trim, a lookup) maps different elements to equal keys, and since the "
+                      "sort is stable, elements that tie keep the order they arrived in -- for vectors filled from DashMap / "
+                      "HashMap iteration, the hash order of this process")
+    crate = ctx.bin
+    ALLOWED = re.compile(r"cmp::Ord(>)?::cmp$|cmp::PartialOrd(<.*>)?(>)?::partial_cmp$|cmp::Ordering::(then|then_with|reverse)$"
+                         r"|ops::Deref(>)?::deref$|::as_str$|::as_ref$|::as_path$|::borrow$|cmp::Reverse|::cmp$|::partial_cmp$|::as_deref$|::as_slice$")
+
+    def allcalls(cid, seen):
+        f = crate.fns.get(cid)
+        out = []
+        if f is None or cid in seen:
+            return out
+        seen.add(cid)
+        for bb, c in f.calls():
+            out.append(c.get("res") or c.get("fn") or "?")
+            for x, _l in c.get("clos", []):
+                out += allcalls(x, seen)
+        return out
+    n = 0
+    for f in crate.real_fns():
+        for bb, c in f.calls():
+            res = c.get("res") or ""
+            if not re.search(r"::sort(_unstable)?(_by|_by_key|_by_cached_key)$", res):
+                continue
+            n += 1
+            calls = []
+            for cid, _l in c.get("clos", []):
+                calls += allcalls(cid, set())
+            bad = sorted({x.split("::")[-1] for x in calls if not ALLOWED.search(x)})
+            key = "R4d|%s|%s" % (f.root, res.split("::")[-1])
+            if bad:
+                r.violate(key + "|" + ",".join(bad), "the %s closure in %s at %s computes its key with %s: distinct elements can tie and "
+                                                     "keep their arrival (hash) order" % (res.split("::")[-1], f.id, crate.span_str(c["span"]), bad))
+            else:
+                r.ok(sample={"sort_at": crate.span_str(c["span"]), "comparator_calls": sorted({x.split("::")[-1] for x in calls})})
+    r.floor("sorts with a comparator / key closure", n, 4)
+    return r
